@@ -514,7 +514,7 @@ def Res.bind2 (a b : Res (List Entry)) : Res (List Entry) :=
 
 theorem decodeGroup_cons (v4 : Bool) (data : Bytes) (o : Offset) (os : List Offset) :
     decodeGroup v4 data (o :: os) =
-      if data.length < o.fromStart then .panic
+      if data.length < o.fromStart then .err
       else match chunk v4 o.numEntries (data.drop o.fromStart) with
         | none => .err
         | some (es, _) =>
